@@ -135,6 +135,10 @@ func zzNewWorld() (*zzWorld, *big.Int, *big.Int) {
 // ZZ_C14: a dry run changes nothing. World A: preview(w), real(w), real(r). World B:
 // real(w), real(r). Same arbitrary pre-state (L, N, balance) and amounts.
 func ZZ_C14(shape int) {
+	if shape >= zzKinds {
+		zzC14UsedKey(shape - zzKinds)
+		return
+	}
 	kind := shape
 	amt := verifhook.BigInt("amt")
 	amt2 := verifhook.BigInt("amt2")
@@ -176,6 +180,44 @@ func ZZ_C14(shape int) {
 	}
 	verifhook.Assert(len(A.monitor.events) == len(B.monitor.events), "C14 same published events")
 	_ = L
+	verifhook.Canary()
+}
+
+// zzC14UsedKey: the preview of a request whose idempotency key was already used answers
+// what the real retry answers (the stored outcome), and changes nothing. World A: real
+// w(K), preview w(K), real r. World B: real w(K), real w(K) again, real r.
+func zzC14UsedKey(kind int) {
+	amt := verifhook.BigInt("amt")
+	amt2 := verifhook.BigInt("amt2")
+	A, _, N := zzNewWorld()
+	B, _, _ := zzNewWorld()
+	key := Parameters{IdempotencyKey: "k14"}
+	ra := zzWrite(A, kind, key, amt, N, "w")
+	rb := zzWrite(B, kind, key, amt, N, "w")
+	verifhook.Assert((ra.err == nil) == (rb.err == nil), "the two worlds start alike")
+	if ra.err != nil || rb.err != nil {
+		verifhook.Reach("first-refused")
+		return
+	}
+	nLogs, nEvents := len(A.store.Logs()), len(A.monitor.events)
+	pv := zzWrite(A, kind, Parameters{IdempotencyKey: "k14", DryRun: true}, amt, N, "w")
+	rr := zzWrite(B, kind, key, amt, N, "w")
+	verifhook.Reach("previewed-used-key")
+	verifhook.Assert(len(A.store.Logs()) == nLogs, "C14 preview writes no log entry")
+	verifhook.Assert(len(A.monitor.events) == nEvents, "C14 preview publishes no event")
+	verifhook.Assert((pv.err == nil) == (rr.err == nil), "C14 preview of an already used key answers with another outcome than the real retry")
+	if pv.err == nil && rr.err == nil && pv.tx != nil && rr.tx != nil {
+		verifhook.Reach("replayed-tx")
+		verifhook.Assert(verifhook.Eq(pv.tx.ID, rr.tx.ID), "C14 preview of an already used key answers another transaction than the real retry")
+		verifhook.Assert(zzSamePostings(pv.tx.Postings, rr.tx.Postings), "C14 preview of an already used key answers other postings than the real retry")
+	}
+	fa := zzWrite(A, zzKCreateScript, Parameters{}, amt2, N, "r")
+	fb := zzWrite(B, zzKCreateScript, Parameters{}, amt2, N, "r")
+	verifhook.Assert((fa.err == nil) == (fb.err == nil), "C14 later write has the same outcome")
+	if fa.err == nil && fb.err == nil {
+		verifhook.Assert(verifhook.Eq(fa.tx.ID, fb.tx.ID), "C14 later write gets the same transaction id")
+	}
+	verifhook.Assert(len(A.store.Logs()) == len(B.store.Logs()), "C14 same number of log entries")
 	verifhook.Canary()
 }
 
@@ -284,9 +326,9 @@ func zzIDString(v any) string {
 // ZZ_C13: every log entry the write path emits can be read back and re-verified.
 var zzC13BigIDs = []string{"", "9007199254740993", "1234567890123456789", "4611686018427387905"}
 
-var zzMetaVariantNames = []string{"one entry", "nil", "empty", "two entries (one empty value)"}
+var zzMetaVariantNames = []string{"one entry", "nil", "empty", "two entries (one empty value)", "one entry, written right after a preview of the same request"}
 
-func ZZ_C13N() int { return zzKinds * (len(zzC13BigIDs) + 3) }
+func ZZ_C13N() int { return zzKinds * (len(zzC13BigIDs) + 4) }
 
 func ZZ_C13Desc(i int) string {
 	if v := i/zzKinds - len(zzC13BigIDs); v >= 0 {
@@ -319,6 +361,10 @@ func ZZ_C13(shape int) {
 		w = zzStart(st, NewDefaultLocker())
 	}
 	w.metaVariant = variant
+	if variant == 4 {
+		w.metaVariant = 0
+		zzWrite(w, kind, Parameters{DryRun: true}, amt, N, "w")
+	}
 	p := Parameters{}
 	if kind%2 == 1 {
 		p.IdempotencyKey = "key-13"
